@@ -3,8 +3,8 @@
 //! differ only in the `Backend` that binds the real handlers to a directory and calls them.
 //!
 //!   staticfs replay <scratch-dir> [threads]
-//!       stdin : lines printed by TLC - {"routes":[..],"nostar":[..]}, {"world":k,"root":[..],"nodes":[..]} and
-//!               per request path {"r":[bytes],"d":[E,E,E],"f":[E,E,E],"x":[[st,id],..]}, E = [kind,id,ct(,akind,aid,act)]
+//!       stdin : lines printed by TLC - {"routes":[..],"nostar":[..],"cat":[..]}, {"world":k,"root":[..],"nodes":[..]} and
+//!               per request path {"r":[bytes] | "p":[catalogue indices],"d":[E,E,E],"f":[E,E,E](,"x":[[st,id],..])}, E = [kind,id,ct(,akind,aid,act)]
 //!       Every world is built below <scratch-dir> (canary and twin beside the root), every path is sent to
 //!       serve_dir and directory_handler under every route prefix and to serve_as_file_path, and the answer
 //!       (status, Location, Content-Type, identity of the body, canary marker) is compared with E.
@@ -226,6 +226,7 @@ fn replay<B: Backend>(scratch: &str, threads: usize) {
     let mut worlds: Vec<World> = vec![];
     let mut routes: Vec<Vec<u8>> = vec![];
     let mut nostar: Vec<u8> = vec![];
+    let mut cat: Vec<Vec<u8>> = vec![];
     let mut vectors: Vec<Value> = vec![];
     for line in stdin_lines() {
         let v: Value = match serde_json::from_str(&line) { Ok(v) => v, Err(_) => continue };
@@ -235,7 +236,8 @@ fn replay<B: Backend>(scratch: &str, threads: usize) {
         } else if v.get("routes").is_some() {
             routes = v["routes"].as_array().unwrap().iter().map(bytes_of).collect();
             nostar = bytes_of(&v["nostar"]);
-        } else if v.get("r").is_some() {
+            cat = v["cat"].as_array().map(|a| a.iter().map(bytes_of).collect()).unwrap_or_default();
+        } else if v.get("r").is_some() || v.get("p").is_some() {
             vectors.push(v);
         }
     }
@@ -248,10 +250,11 @@ fn replay<B: Backend>(scratch: &str, threads: usize) {
     let routes = Arc::new(routes);
     let nostar = Arc::new(nostar);
     let vectors = Arc::new(vectors);
+    let cat = Arc::new(cat);
     let nthreads = threads.max(1);
     let mut handles = vec![];
     for t in 0..nthreads {
-        let (worlds, routes, nostar, vectors) = (worlds.clone(), routes.clone(), nostar.clone(), vectors.clone());
+        let (worlds, routes, nostar, vectors, cat) = (worlds.clone(), routes.clone(), nostar.clone(), vectors.clone(), cat.clone());
         handles.push(std::thread::spawn(move || {
             let hs: Vec<B> = worlds.iter().map(|w| B::new(&w.root_dir)).collect();
             let offered = B::handlers();
@@ -261,12 +264,15 @@ fn replay<B: Backend>(scratch: &str, threads: usize) {
                 let v = &vectors[i];
                 i += nthreads;
                 ta.lines += 1;
-                let rel = bytes_of(&v["r"]);
+                // the request path: bytes ("r") or catalogue indices ("p", 1-based) joined with '/'
+                let rel = if v.get("r").is_some() { bytes_of(&v["r"]) } else {
+                    v["p"].as_array().unwrap().iter().map(|i| cat[i.as_u64().unwrap() as usize - 1].clone()).collect::<Vec<_>>().join(&b'/')
+                };
                 let mut interesting = false;
                 for (wi, w) in worlds.iter().enumerate() {
                     let ed = &v["d"][wi];
                     let ef = &v["f"][wi];
-                    let x = &v["x"][wi];
+                    let x = if v.get("x").is_some() { &v["x"][wi] } else { &Value::Null };
                     let k_d = ed[0].as_str().unwrap();
                     let k_f = ef[0].as_str().unwrap();
                     if k_d == "f" || k_d == "r" || k_f == "f" || ed.as_array().unwrap().len() > 3 || ef.as_array().unwrap().len() > 3
